@@ -49,15 +49,32 @@ Ltac norm :=
   change (2 ^ 8) with 256; change (16 =? 0) with false; cbn [negb];
   rewrite ?orb_true_r, ?cnv_ltb15, ?cnv_eqb0, ?cnv_succ, ?cnv_le.
 
-Lemma tie_chunk fuel c :
+(* the chunk-size loop never commits: `start` stays where Bytes::new put it, so the final `bytes.pos()`
+   (cursor - start) is the absolute offset *)
+Lemma chunk_loop_pre : forall f size ics iext count c,
+  match chunk_loop dbg f size ics iext count c with Done _ c' => pre c' = pre c | _ => True end.
+Proof.
+  induction f as [|f IH]; intros size ics iext count [p t r]; [cbn [chunk_loop]; unfold fault_; exact Logic.I|].
+  cbn [chunk_loop]. cbv zeta. unfold bind at 1. unfold next at 1. cbn [rest pre tokrev].
+  destruct r as [|b r]; [exact Logic.I|].
+  repeat match goal with
+  | |- context [match chunk_digit ?d ?a ?b ?c with _ => _ end] => destruct (chunk_digit d a b c) as [[[? ?]|]|?]
+  | |- context [if ?x then _ else _] => destruct x
+  end; try exact Logic.I; try (apply (IH _ _ _ _ (mkcur p (b :: t) r))).
+  all: unfold bind, next; cbn [rest pre tokrev]; destruct r as [|b2 r]; [exact Logic.I|];
+       match goal with |- context [is LF ?x] => destruct (is LF x) end; [reflexivity|exact Logic.I].
+Qed.
+
+Lemma tie_chunk fuel c : pre c = O ->
   g_parse_chunk_size dbg fuel c = chunk_mo (chunk_loop dbg fuel 0 true false 0 c).
 Proof.
+  intros Hpre.
   unfold g_parse_chunk_size, g_parse_chunk_size_body, g_parse_chunk_size_init.
   match goal with |- context [iloop ?f ?n ?body] => set (B := body) end.
   assert (HL : forall f size ics iext count c, (count <= 16)%nat ->
      chunk_out (iloop f 1 B (mkL_g_parse_chunk_size size ics iext (N.of_nat count)) c)
      = chunk_mo (chunk_loop dbg f size ics iext count c)).
-  { clear c. induction f as [|f IH]; intros size ics iext count [p t r] Hcnt; [reflexivity|].
+  { clear c Hpre. induction f as [|f IH]; intros size ics iext count [p t r] Hcnt; [reflexivity|].
     cbn [chunk_loop iloop]. unfold B at 1. clearbody B. unfold chunk_digit. norm.
     destruct r as [|b r]; [reflexivity|]. norm.
     Ltac digit_arm IH Hcnt :=
@@ -93,9 +110,14 @@ Proof.
     destruct iext; norm; [apply IH; lia | reflexivity]. }
   clearbody B.
   specialize (HL fuel 0 true false 0%nat c). change (N.of_nat 0) with 0 in HL.
-  rewrite <- HL by lia. norm.
+  pose proof (chunk_loop_pre fuel 0 true false 0%nat c) as HP.
+  rewrite <- HL by lia. assert (H016 : (0 <= 16)%nat) by lia; specialize (HL H016). norm.
   destruct (iloop _ _ _ _ _) as [a l' c'|l'|e l'|f0 l'|x l' c']; norm; try reflexivity.
-  destruct x; reflexivity.
+  - destruct (chunk_loop dbg fuel 0 true false 0 c) as [sz cm| | |]; unfold chunk_out, chunk_mo in HL;
+      try discriminate HL.
+    injection HL as _ _ Hc. subst cm. destruct c' as [p' t' r']. cbn [pre] in HP.
+    f_equal. f_equal. lia.
+  - destruct x; reflexivity.
 Qed.
 
 End ChunkTie.
